@@ -354,6 +354,9 @@ var _ b6.AnyCollection[int, b6.Geometry] = &areaPointCollection{}
 // Return a collection of the points of the given geometry.
 // Keys are ordered integers from 0, values are points.
 func points(context *api.Context, geometry b6.Geometry) (b6.Collection[int, b6.Geometry], error) {
+	if err := requireGeometry("points", geometry); err != nil {
+		return b6.Collection[int, b6.Geometry]{}, err
+	}
 	switch geometry.GeometryType() {
 	case b6.GeometryTypePoint:
 		return b6.ArrayValuesCollection[b6.Geometry]([]b6.Geometry{geometry}).Collection(), nil
